@@ -39,7 +39,7 @@ PARAM_VALUES = ['Boolean', 'Integer', 'Float', 'String', 'Binary', 'Null']
 
 def shapes(tier):
     out = []
-    for old in (0, 1):
+    for old in (0, 1, 2):
         out.append(dict(part='sync_node', old=old, has_node=1, engine='c09'))
     for kind in ('node', 'edge'):
         for n in (1, 2):
